@@ -278,10 +278,10 @@ fn small_stream_permutations(seed: u64, count: usize) -> Vec<StreamCase> {
 pub fn run(env: &Env, rep: &Report) {
     rep.set_rule("result streams over <=6 queries x <=6 tracks, 0..40 items, distances on a tie-prone grid or continuous, some absent, all N/min_votes in 1..4, max_distance below/inside/above the range; 1-3 random permutations per stream, and all n! permutations of streams of 2..5 items. Oracle: counting rules re-implemented in f64 from the statement. Non-trivial: two queries claim one track, or min_votes/max_distance removes a claim; distinct = distinct serialized case");
     rep.assume("weights compared within 1e-6 relative + 1e-5; weights closer than 1e-3 are ties (either order / either winner accepted, order independence asserted only for tie-free streams)");
-    par_generated(rep, "streams", stream_case, env.tier.pick(150_000, 4_000_000), workers(), check_stream);
+    par_generated(rep, "streams", stream_case, env.tier.pick(1_500_000, 30_000_000), workers(), check_stream);
     // Hungarian voting: structural contract (optimality is C02's business; same checker)
-    par_generated(rep, "hungarian", crate::props::c02::random_matrix, env.tier.pick(60_000, 1_000_000), workers(), crate::props::c02::check_matrix);
-    let perms = small_stream_permutations(rep.seed, env.tier.pick(3_000, 60_000));
+    par_generated(rep, "hungarian", crate::props::c02::random_matrix, env.tier.pick(600_000, 8_000_000), workers(), crate::props::c02::check_matrix);
+    let perms = small_stream_permutations(rep.seed, env.tier.pick(30_000, 400_000));
     run_enumerated(rep, "all-permutations", perms.into_iter(), check_stream);
 }
 
